@@ -229,7 +229,12 @@ def execute(case):
             # the index as an old release wrote it: one pickled dictionary {'index': {oid: pos}, 'pos': n}
             ro_index = old_format_index(usable[-1][0])
             out.label('read-only-with-old-format-index')
-        dd = fresh(data, {'.index': ro_index} if ro_index is not None else None)
+        side = {'.index': ro_index} if ro_index is not None else {}
+        if case['junk'] % 3:
+            # ... next to what earlier packs, crashes and recoveries may have left behind
+            side.update(leftovers)
+            out.label('read-only-beside-leftover-files')
+        dd = fresh(data, side or None)
         before = sha_dir(dd)
         out.evals += 1
         try:
